@@ -179,11 +179,28 @@ def gen_model(rng, depth, counter, allow_inherit=True):
         b = [gen_field(rng, 'bb', used, 3, counter)]
         B = type(f'B{cid}', (A,), {'_a': IncludeBase(A), **{f['name']: make_lib_field(f) for f in b}})
         c = [gen_field(rng, 'cc', used, 3, counter)]
-        C = type(f'C{cid}', (A,), {**{f['name']: make_lib_field(f) for f in c}, '_a': IncludeBase(A)})
+        c_post = [gen_field(rng, f'c{i}', used, 3, counter) for i in range(2, 2 + rng.randint(0, 2))]       # C's own fields after the shared ones
+        C = type(f'C{cid}', (A,), {**{f['name']: make_lib_field(f) for f in c}, '_a': IncludeBase(A), **{f['name']: make_lib_field(f) for f in c_post}})
         d = [gen_field(rng, 'dd', used, 3, counter)]
-        D = type(f'D{cid}', (B, C), {'_b': IncludeBase(B), '_c': IncludeBase(C), **{f['name']: make_lib_field(f) for f in d}})
-        # B: a.., bb ; C: cc, a.. ; D: (B) a.., bb, then (C) cc appended, a already present ; dd
-        return {'fields': a + b + c + d, 'cls': D, 'id': cid, 'style': 'diamond'}
+        d_attrs = {'_b': IncludeBase(B), '_c': IncludeBase(C)}
+        eff = a + b + c + list(c_post)
+        if c_post and rng.random() < 0.6:
+            # D overrides (by name) a field that stands AFTER the shared fields in base C: the new definition takes its position
+            j = rng.randrange(len(c_post))
+            used.discard(c_post[j]['type'])
+            nf = gen_field(rng, c_post[j]['name'], used, 3, counter)
+            d_attrs[nf['name']] = make_lib_field(nf)
+            eff[len(a + b + c) + j] = nf
+        elif rng.random() < 0.3:
+            # ... or the field that B added after the shared ones
+            used.discard(b[0]['type'])
+            nf = gen_field(rng, 'bb', used, 3, counter)
+            d_attrs['bb'] = make_lib_field(nf)
+            eff[len(a)] = nf
+        d_attrs.update({f['name']: make_lib_field(f) for f in d})
+        D = type(f'D{cid}', (B, C), d_attrs)
+        # B: a.., bb ; C: cc, a.., c2.. ; D: (B) a.., bb, then (C) cc, c2.. appended, a already present ; dd
+        return {'fields': eff + d, 'cls': D, 'id': cid, 'style': 'diamond'}
     fields = [gen_field(rng, f'f{i}', used, depth, counter) for i in range(rng.randint(1, 5 if depth == 0 else 3))]
     cls = type(f'M{cid}', (TlvModel,), {f['name']: make_lib_field(f) for f in fields})
     return {'fields': fields, 'cls': cls, 'id': cid, 'style': 'plain'}
@@ -660,10 +677,33 @@ def expect_decode_error(ctx, cls, wire, mech, w):
     ctx.report(mech, 'expected DecodeError, decoding succeeded', w)
 
 
+def check_long_containers(ctx, rng):
+    """Repeated and map fields with far more elements than any test uses (1100, 5000): every element is encoded and decoded."""
+    for count in (1100, 5000):
+        ue = {'kind': 'uint', 'name': 'nums_e', 'type': 0x81, 'fixed_len': None, 'base': None, 'default': None}
+        be = {'kind': 'bytes', 'name': 'blobs_e', 'type': 0x84}
+        fields = [{'kind': 'uint', 'name': 'head', 'type': 0x80, 'fixed_len': None, 'base': None, 'default': None},
+                  {'kind': 'rep', 'name': 'nums', 'type': 0x81, 'elem': ue},
+                  {'kind': 'uint', 'name': 'mid', 'type': 0x82, 'fixed_len': None, 'base': None, 'default': None},
+                  {'kind': 'rep', 'name': 'blobs', 'type': 0x84, 'elem': be},
+                  {'kind': 'map', 'name': 'table', 'type': 0x85, 'key': {'kind': 'uint', 'name': 'table_k', 'type': 0x85, 'fixed_len': None, 'base': None, 'default': None},
+                   'val': {'kind': 'bytes', 'name': 'table_v', 'type': 0x86}},
+                  {'kind': 'uint', 'name': 'tail', 'type': 0x87, 'fixed_len': None, 'base': None, 'default': None}]
+        cls = type(f'Long{count}', (TlvModel,), {f['name']: make_lib_field(f) for f in fields})
+        spec = {'fields': fields, 'cls': cls, 'id': f'long{count}', 'style': 'long-containers'}
+        value = {'head': 1, 'nums': [j * 7 for j in range(count)], 'mid': 2, 'blobs': [b'%d' % j for j in range(count)],
+                 'table': {j: b'v%d' % j for j in range(count)}, 'tail': 3}
+        check_value(ctx, rng, spec, value, thorough_gaps=False)
+        ctx.case(('long-containers', count), nontrivial=True)
+        ctx.event('long-containers')
+
+
 def run(ctx):
     ctx.rule = RULE
     rng = ctx.rng
     counter = [0]
+    if ctx.shard == 0:
+        check_long_containers(ctx, rng)
     nclasses = ctx.n(1500, 250000)
     nvals = 8 if ctx.quick else 16
     for ci in range(nclasses):
